@@ -31,6 +31,11 @@ CLAIMS = {
          "A writer thread executes a generated history while 1-3 reader threads (same Index and a second Index::open) reload and fingerprint searchers and keep some alive; every observation must equal exactly one commit's model within the logical-time window, non-decreasing per reader, and held searchers never change (also after gc and writer shutdown).",
          "schedules are sampled; the only steering is bounded holds of a reader at its n-th segment-file open (SimDir gates); the OnCommitWithDelay file watcher is not exercised",
          "DESIGN.md §3 C05"),
+ "C09": ("exploration",
+         "round-trip property testing of the document store (StoreWriter/StoreReader directly and through IndexWriter/Searcher) against an independent document model (proptest)",
+         "Generated documents of every value type (nested JSON to depth 8, multi-valued fields, huge values, pre-tokenised text, non-stored fields) are written under generated compressor / block size / compression-thread settings, stacked or re-compressed, merged (incl. codec changes and sorted indexes) and read back through Searcher::doc, StoreReader::get, iter and iter(alive) in generated access orders and cache sizes; every value must equal the model.",
+         "values are compared with an independent model (never through tantivy's own serialisation or PartialEq); object key order and NaN payloads are not demanded",
+         "DESIGN.md §3 C09"),
  "C10": ("exploration",
          "quiescence (no-orphan / nothing-missing) predicate over generated histories on SimDir and MmapDirectory, and over recovered crash images (proptest)",
          "After every commit under NoMergePolicy and at the end of every generated history (merges joined, gc run) the directory listing must equal meta.json + committed segment files and .managed.json must match; crash images of generated histories are recovered, committed to, collected and checked for orphans.",
@@ -41,6 +46,16 @@ CLAIMS = {
          "For generated histories a fault-free dry run counts the storage operations; generated positions (fraction of the count) x {once, permanent} x kind filter x thread filter are injected in a child process; every Ok commit's minimal durable image must open and equal its model, after the run the index equals the last successful (or the failed-but-published) commit, and a new writer continues; abort, panic or a stalled child is a violation.",
          "faults are io::Errors returned by Directory operations of SimDir; positions are sampled (24-40 per history), not all k; hang = no output and no CPU progress for 20 s",
          "DESIGN.md §3 C11"),
+ "C18": ("exploration",
+         "model-based lifecycle testing of the writer lock (two-state free/held model) over generated call sequences on Ram/Mmap/Sim directories, thread races and competing child processes (proptest)",
+         "Generated sequences of writer creations (valid and invalid), second handles, rollbacks, drops, wait_merging_threads, worker kills by injected I/O errors and creation races from 2-8 threads, plus two child processes competing on one MmapDirectory, are judged by a free/held model: creation succeeds iff free, a held lock rejects every attempt without disturbing the holder, and the lock follows the writer's lifetime.",
+         "races are those the OS produces among 2-8 threads / 3 processes; invalid options accepted by tantivy are counted, not judged",
+         "DESIGN.md §3 C18"),
+ "C19": ("exploration",
+         "invariant checking over generated (analyser, UTF-8 text) pairs and generated snippets with an independent HTML scanner (proptest); bytes-to-case decoder for fuzzing",
+         "Every built-in tokenizer with generated filter chains is run over generated Unicode texts (multi-byte, combining marks, emoji/ZWJ, case mappings that change byte length, controls, megabyte tokens): offsets in bounds, on char boundaries, ordered, positions monotone, un-normalised tokens equal their slice; generated snippets must never panic, stay substrings within max_num_chars, have sorted disjoint in-range highlights that re-analyse to query terms, and an HTML rendering that escapes everything outside the tags.",
+         "whether a token was normalised is decided by an independent per-token rule (frozen list of Unicode blocks touched by ASCII folding, char-wise lower-casing identity); regex tokenizer texts for non-simple patterns are capped at 2 KiB (quadratic tokenisation)",
+         "DESIGN.md §3 C19"),
  "C20": ("fault_enumeration",
          "generated write patterns + enumerated/generated file damage vs Index::validate_checksum (proptest, independent crc32)",
          "Every damage class named by the property (single bit, byte substitution, multi-byte, body truncation, whole-file truncation, insertion, extension, unsupported footer versions) is generated against generated small indexes; small files get every single bit flipped and every body truncation length. Exploration of the index/file space, enumeration of the damage positions.",
